@@ -23,6 +23,8 @@ def js_of_tmpl(t):
         return "Env.bindings"
     if k == "throw":
         return "throw 'verifthrow'"
+    if k == "addfact":
+        return "Env.AddFact(%s, %s)" % (json.dumps(t["id"]), json.dumps(t["fact"]))
     raise ValueError(k)
 
 
